@@ -283,6 +283,8 @@ def r5_write_data_frame(ctx):
 
 
 def run(ctx):
+    from . import C09 as _C09s
+    _C09s.r10_constructor_siblings(ctx)   # both roles start a session in the same state (counter 0, unbuffered, ids from 1): sibling cross-check of the constructors
     from . import C01 as _C01x, C20 as _C20x
     _C20x.r14_gauges_released_on_every_exit(ctx)    # a session-wide mode switched on for one request is switched off on every way out of it (the other streams' frames are not held back for ever)
     _C01x.r3_r4_recv_buffer(ctx)     # every complete frame in the receive buffer is dispatched before the loop waits for more input (no stream waits behind another stream's burst)
